@@ -96,6 +96,87 @@ func scriptRun(w *World, coll bool) {
 	}
 	masks := [][]string{{fV}, {fV, fN}, {fS}, {}, {"nope"}, {fN}}
 	var hist []hop
+	// per writer op: what a subscriber needs to derive its expected event; snapshots of the model and of the change time
+	// stamps after 0, 1, 2, ... ops (for a subscriber that arrives while the writer is at work)
+	type opRec struct {
+		o      wop
+		res    wres
+		before *model
+		st     stamp
+	}
+	var recs []*opRec // nil for writes that failed or changed nothing
+	snaps := []*model{m.clone()}
+	copyStamps := func() map[string]stamp {
+		c := map[string]stamp{}
+		for k, v := range lastWrite {
+			c[k] = v
+		}
+		return c
+	}
+	stamps := []map[string]stamp{copyStamps()}
+	started, completed := 0, 0
+	seedFor := func(s *scriptSub, m *model, lastWrite map[string]stamp) []expEv {
+		var out []expEv
+		if s.cfg.UpdatesOnly {
+			return nil
+		}
+		if coll {
+			var sids []string
+			for _, id := range m.sortedIDs() {
+				if s.cfg.Include == nil || s.cfg.Include.eval(id, false, m.items[id].V) {
+					sids = append(sids, id)
+				}
+			}
+			for k, id := range sids {
+				lw := lastWrite[id]
+				out = append(out, expEv{sev: sev{ID: id, Type: types.ChangeType_ADD, HasNew: true, New: m.items[id].project(s.cfg.RMask, !s.cfg.RMaskSet), Seed: true, LastSeed: k == len(sids)-1},
+					T0: lw.t0, T1: lw.t1, Exact: lw.exact, What: "seed"})
+			}
+		} else if m.present {
+			lw := lastWrite[""]
+			out = append(out, expEv{sev: sev{Type: types.ChangeType_UPDATE, HasNew: true, New: m.val.project(s.cfg.RMask, !s.cfg.RMaskSet), Seed: true, LastSeed: true},
+				T0: lw.t0, T1: lw.t1, Exact: lw.exact, What: "seed"})
+		}
+		return out
+	}
+	evFor := func(s *scriptSub, rec *opRec) (expEv, bool) {
+		o, st, before := rec.o, rec.st, rec.before
+		proj := func(x mm) mm { return x.project(s.cfg.RMask, !s.cfg.RMaskSet) }
+		e := expEv{T0: st.t0, T1: st.t1, Exact: st.exact, What: o.String()}
+		e.ID = o.ID
+		old, hadOld := before.items[o.ID]
+		switch {
+		case !coll:
+			e.Type, e.HasNew, e.New = types.ChangeType_UPDATE, true, proj(rec.res.Msg)
+			if cfg.Equiv && before.present && proj(before.val) == e.New {
+				e.Optional = true
+			}
+		case o.Kind == opDelete:
+			e.Type, e.HasOld, e.Old = types.ChangeType_REMOVE, true, proj(rec.res.Msg)
+		case hadOld:
+			e.Type, e.HasOld, e.Old, e.HasNew, e.New = types.ChangeType_UPDATE, true, proj(old), true, proj(rec.res.Msg)
+			if cfg.Equiv && e.Old == e.New {
+				e.Optional = true
+			}
+		default:
+			e.Type, e.HasNew, e.New = types.ChangeType_ADD, true, proj(rec.res.Msg)
+		}
+		if inc := s.cfg.Include; inc != nil {
+			// the filtered collection's edit: decided on the stored (unprojected) versions
+			oi := hadOld && inc.eval(o.ID, false, old.V)
+			ni := o.Kind != opDelete && inc.eval(o.ID, false, rec.res.Msg.V)
+			switch {
+			case oi && ni:
+			case ni:
+				e.Type, e.HasOld, e.Old, e.Optional = types.ChangeType_ADD, false, mm{}, false
+			case oi:
+				e.Type, e.HasOld, e.Old, e.HasNew, e.New, e.Optional = types.ChangeType_REMOVE, true, proj(old), false, mm{}, false
+			default:
+				return e, false
+			}
+		}
+		return e, true
+	}
 
 	openSubs := func(task *Task, pos int) {
 		for _, s := range subs {
@@ -103,26 +184,7 @@ func scriptRun(w *World, coll bool) {
 				continue
 			}
 			s := s
-			// expected seed
-			if !s.cfg.UpdatesOnly {
-				if coll {
-					var sids []string
-					for _, id := range m.sortedIDs() {
-						if s.cfg.Include == nil || s.cfg.Include.eval(id, false, m.items[id].V) {
-							sids = append(sids, id)
-						}
-					}
-					for k, id := range sids {
-						lw := lastWrite[id]
-						s.expect = append(s.expect, expEv{sev: sev{ID: id, Type: types.ChangeType_ADD, HasNew: true, New: m.items[id].project(s.cfg.RMask, !s.cfg.RMaskSet), Seed: true, LastSeed: k == len(sids)-1},
-							T0: lw.t0, T1: lw.t1, Exact: lw.exact, What: "seed"})
-					}
-				} else if m.present {
-					lw := lastWrite[""]
-					s.expect = append(s.expect, expEv{sev: sev{Type: types.ChangeType_UPDATE, HasNew: true, New: m.val.project(s.cfg.RMask, !s.cfg.RMaskSet), Seed: true, LastSeed: true},
-						T0: lw.t0, T1: lw.t1, Exact: lw.exact, What: "seed"})
-				}
-			}
+			s.expect = append(s.expect, seedFor(s, m, lastWrite)...)
 			s.pullInvoked = w.Step()
 			s.open(r)
 			s.pullReturn = w.Step()
@@ -163,6 +225,34 @@ func scriptRun(w *World, coll bool) {
 				}
 			})
 		}
+	}
+	// a subscriber that arrives while the writer is at work: its seed reflects the first j writes for some j between the
+	// writes that had returned when Pull was called and the writes that had begun when Pull returned, and the stream is
+	// then exactly the script of the writes after j
+	var csub *scriptSub
+	csMin, csMax := 0, 0
+	if t.Flag(1, 3) {
+		ctx, cancel := context.WithCancel(context.Background())
+		sc := subCfg{Backpressure: true, UpdatesOnly: t.Flag(1, 4)}
+		if t.Flag(1, 4) {
+			sc.RMaskSet, sc.RMask = true, []string{fV}
+		}
+		csub = &scriptSub{subscriber: &subscriber{name: "arriving", cfg: sc, ctx: ctx, cancel: cancel}}
+		wait := t.Choose(2 * nops)
+		w.Go(csub.name, true, func(task *Task) {
+			for k := 0; k < wait; k++ {
+				task.Yield("later")
+			}
+			csMin = completed
+			csub.open(r)
+			csMax = started
+			for {
+				task.Yield("recv")
+				if !csub.recv(w) {
+					return
+				}
+			}
+		})
 	}
 	w.Go("w", false, func(task *Task) {
 		for i := 0; i < nops; i++ {
@@ -226,6 +316,7 @@ func scriptRun(w *World, coll bool) {
 				o.HasWT, o.WT = true, time.Unix(int64(5000+t.Choose(100)), int64(t.Choose(1000)))
 			}
 			h := hop{Task: "w", Op: o, Inv: w.Step(), T0: clock.Peek()}
+			started++
 			h.Res = r.apply(o)
 			h.Ret = w.Step()
 			h.T1 = clock.Peek().Add(time.Nanosecond)
@@ -238,6 +329,8 @@ func scriptRun(w *World, coll bool) {
 				return
 			}
 			if h.Res.Code != codes.OK || (o.Kind == opDelete && !h.Res.HasMsg) {
+				recs, snaps, stamps = append(recs, nil), append(snaps, m.clone()), append(stamps, copyStamps())
+				completed++
 				continue
 			}
 			st := stamp{t0: h.T0, t1: h.T1}
@@ -245,43 +338,16 @@ func scriptRun(w *World, coll bool) {
 				st = stamp{t0: o.WT, exact: true}
 			}
 			lastWrite[o.ID] = st
+			rec := &opRec{o: o, res: h.Res, before: before, st: st}
+			recs, snaps, stamps = append(recs, rec), append(snaps, m.clone()), append(stamps, copyStamps())
+			completed++
 			for _, s := range subs {
 				if !s.opened {
 					continue
 				}
-				proj := func(x mm) mm { return x.project(s.cfg.RMask, !s.cfg.RMaskSet) }
-				e := expEv{T0: st.t0, T1: st.t1, Exact: st.exact, What: o.String()}
-				e.ID = o.ID
-				old, hadOld := before.items[o.ID]
-				switch {
-				case !coll:
-					e.Type, e.HasNew, e.New = types.ChangeType_UPDATE, true, proj(h.Res.Msg)
-					if cfg.Equiv && before.present && proj(before.val) == e.New {
-						e.Optional = true
-					}
-				case o.Kind == opDelete:
-					e.Type, e.HasOld, e.Old = types.ChangeType_REMOVE, true, proj(h.Res.Msg)
-				case hadOld:
-					e.Type, e.HasOld, e.Old, e.HasNew, e.New = types.ChangeType_UPDATE, true, proj(old), true, proj(h.Res.Msg)
-					if cfg.Equiv && e.Old == e.New {
-						e.Optional = true
-					}
-				default:
-					e.Type, e.HasNew, e.New = types.ChangeType_ADD, true, proj(h.Res.Msg)
-				}
-				if inc := s.cfg.Include; inc != nil {
-					// the filtered collection's edit: decided on the stored (unprojected) versions
-					oi := hadOld && inc.eval(o.ID, false, old.V)
-					ni := o.Kind != opDelete && inc.eval(o.ID, false, h.Res.Msg.V)
-					switch {
-					case oi && ni:
-					case ni:
-						e.Type, e.HasOld, e.Old, e.Optional = types.ChangeType_ADD, false, mm{}, false
-					case oi:
-						e.Type, e.HasOld, e.Old, e.HasNew, e.New, e.Optional = types.ChangeType_REMOVE, true, proj(old), false, mm{}, false
-					default:
-						continue
-					}
+				e, deliver := evFor(s, rec)
+				if !deliver {
+					continue
 				}
 				s.expect = append(s.expect, e)
 			}
@@ -299,9 +365,38 @@ func scriptRun(w *World, coll bool) {
 				scriptCompare(w, coll, cfg, s)
 			}
 		}
+		if csub != nil && csub.opened {
+			var tried []string
+			matched := false
+			for j := csMin; j <= csMax && j < len(snaps) && !matched; j++ {
+				exp := seedFor(csub, snaps[j], stamps[j])
+				for _, rec := range recs[j:] {
+					if rec == nil {
+						continue
+					}
+					if e, deliver := evFor(csub, rec); deliver {
+						exp = append(exp, e)
+					}
+				}
+				csub.expect = exp
+				if d := scriptDiff(csub); d == nil {
+					matched = true
+				} else {
+					tried = append(tried, fmt.Sprintf("seed after %d writes: %s", j, d.detail))
+				}
+			}
+			if !matched {
+				w.Note("%s[%s]: %s", csub.name, csub.cfg, eventsString(csub.events))
+				w.Violate("script-mismatch", fmt.Sprintf("%s [%s, equivalence=%v] subscribed while the writer was at work (%d writes had returned when Pull was called, %d had begun when it returned); its stream is not the seed after j writes followed by the script of the writes after j for any such j\n  received: %s\n  %s",
+					csub.name, csub.cfg, cfg.Equiv, csMin, csMax, eventsString(csub.events), strings.Join(tried, "\n  ")), map[string]any{"resource": resName(coll), "what": "arriving"})
+			}
+		}
 	}
 	for _, s := range subs {
 		s.cancel()
+	}
+	if csub != nil {
+		csub.cancel()
 	}
 	for _, c := range passers {
 		c()
@@ -309,24 +404,15 @@ func scriptRun(w *World, coll bool) {
 	w.Run()
 }
 
-func scriptCompare(w *World, coll bool, cfg resCfg, s *scriptSub) {
+type scriptDelta struct {
+	class, what, detail string
+	e                   expEv
+}
+
+// scriptDiff compares what s received with what it expects; nil when they agree.
+func scriptDiff(s *scriptSub) *scriptDelta {
 	got := s.events
-	w.Note("%s[%s] opened after %d writes: %s", s.name, s.cfg, s.openAt, eventsString(got))
 	gi := 0
-	key := func(what string, e expEv) map[string]any {
-		return map[string]any{"resource": resName(coll), "what": what, "event": e.Type.String(), "seed": e.Seed}
-	}
-	fail := func(class, what string, e expEv, detail string) {
-		var exp []string
-		for _, x := range s.expect {
-			o := ""
-			if x.Optional {
-				o = "?"
-			}
-			exp = append(exp, x.sev.String()+o)
-		}
-		w.Violate(class, fmt.Sprintf("%s [%s, equivalence=%v] opened after %d writes: %s\n  expected: %s\n  received: %s", s.name, s.cfg, cfg.Equiv, s.openAt, detail, strings.Join(exp, " "), eventsString(got)), key(what, e))
-	}
 	for _, e := range s.expect {
 		if gi < len(got) && sameEvent(got[gi], e.sev) {
 			g := got[gi]
@@ -334,12 +420,10 @@ func scriptCompare(w *World, coll bool, cfg resCfg, s *scriptSub) {
 			// change time
 			if e.Exact {
 				if !g.Time.Equal(e.T0) {
-					fail("change-time", "write-time", e, fmt.Sprintf("event %s (%s) carries change time %d, the write was made WithWriteTime(%d)", g, e.What, g.Time.UnixNano(), e.T0.UnixNano()))
-					return
+					return &scriptDelta{"change-time", "write-time", fmt.Sprintf("event %s (%s) carries change time %d, the write was made WithWriteTime(%d)", g, e.What, g.Time.UnixNano(), e.T0.UnixNano()), e}
 				}
 			} else if g.Time.Before(e.T0) || g.Time.After(e.T1) {
-				fail("change-time", "clock-window", e, fmt.Sprintf("event %s (%s) carries change time %d outside the clock window [%d,%d] of its write", g, e.What, g.Time.UnixNano(), e.T0.UnixNano(), e.T1.UnixNano()))
-				return
+				return &scriptDelta{"change-time", "clock-window", fmt.Sprintf("event %s (%s) carries change time %d outside the clock window [%d,%d] of its write", g, e.What, g.Time.UnixNano(), e.T0.UnixNano(), e.T1.UnixNano()), e}
 			}
 			continue
 		}
@@ -347,15 +431,33 @@ func scriptCompare(w *World, coll bool, cfg resCfg, s *scriptSub) {
 			continue
 		}
 		if gi >= len(got) {
-			fail("script-mismatch", "missing", e, fmt.Sprintf("event %s (%s) was never received", e.sev, e.What))
-		} else {
-			fail("script-mismatch", "different", e, fmt.Sprintf("expected %s (%s) but received %s", e.sev, e.What, got[gi]))
+			return &scriptDelta{"script-mismatch", "missing", fmt.Sprintf("event %s (%s) was never received", e.sev, e.What), e}
 		}
-		return
+		return &scriptDelta{"script-mismatch", "different", fmt.Sprintf("expected %s (%s) but received %s", e.sev, e.What, got[gi]), e}
 	}
 	if gi < len(got) {
-		fail("script-mismatch", "extra", expEv{sev: got[gi]}, fmt.Sprintf("unexpected extra event %s", got[gi]))
+		return &scriptDelta{"script-mismatch", "extra", fmt.Sprintf("unexpected extra event %s", got[gi]), expEv{sev: got[gi]}}
 	}
+	return nil
+}
+
+func scriptCompare(w *World, coll bool, cfg resCfg, s *scriptSub) {
+	got := s.events
+	w.Note("%s[%s] opened after %d writes: %s", s.name, s.cfg, s.openAt, eventsString(got))
+	d := scriptDiff(s)
+	if d == nil {
+		return
+	}
+	var exp []string
+	for _, x := range s.expect {
+		o := ""
+		if x.Optional {
+			o = "?"
+		}
+		exp = append(exp, x.sev.String()+o)
+	}
+	w.Violate(d.class, fmt.Sprintf("%s [%s, equivalence=%v] opened after %d writes: %s\n  expected: %s\n  received: %s", s.name, s.cfg, cfg.Equiv, s.openAt, d.detail, strings.Join(exp, " "), eventsString(got)),
+		map[string]any{"resource": resName(coll), "what": d.what, "event": d.e.Type.String(), "seed": d.e.Seed})
 }
 
 func sameEvent(g, e sev) bool {
